@@ -451,4 +451,29 @@ theorem retrieve_appends (env : Env) (H : Hoare root Pre P) : ∀ (ch : List N),
     | afn i name param => exact afn_app H i name param ih
 
 end
+
+/-! ### the top level -/
+
+theorem run_ok {env : Env} {ch : List N} {d : Val} {rs : List Res} {st : St}
+    (h : Impl.run env ch d = (.ok rs, st)) :
+    retrieve env ch default d d (some []) {} = .ok (st, none) ∧ rs = st.out := by
+  unfold Impl.run at h
+  split at h
+  · cases h
+  · cases h
+  · rename_i st' heq
+    cases h
+    exact ⟨heq, rfl⟩
+
+/-- everything a run returns was appended by `retrieve` to the empty buffer -/
+theorem run_results {env : Env} {ch : List N} {d : Val} {rs : List Res} {st : St} {P : Res → Prop}
+    (h : Impl.run env ch d = (.ok rs, st))
+    (happ : ∀ st', retrieve env ch default d d (some []) {} = .ok (st', none) → App P {} st') :
+    ∀ r ∈ rs, P r := by
+  obtain ⟨h1, rfl⟩ := run_ok h
+  obtain ⟨R, hR, hP⟩ := happ st h1
+  intro r hr
+  rw [hR] at hr
+  exact hP r (by simpa using hr)
+
 end JPV
